@@ -83,21 +83,21 @@ theorem mergeLoop_volume (edges : List Edge) (hcells : ∀ e ∈ edges, e.l ∈ 
 consistent integer lift `κ` (constant on initial clusters, dropping by one period across each of
 its periodic boundary pairs — i.e. the component does not wind), then the stored position equals
 the centre of mass of the `κ`-unwrapped component up to whole periods along each axis. -/
-theorem C02_position_nonwinding (edges : List Edge) (hcells : ∀ e ∈ edges, e.l ∈ cells ∧ e.h ∈ cells)
+theorem C02_position_explicit (edges : List Edge) (hcells : ∀ e ∈ edges, e.l ∈ cells ∧ e.h ∈ cells)
     (c0 : Nat) (hc0 : c0 ∈ cells) (hm0 : 0 < lab0 c0) (κ : Nat → Nat → Int)
     (hκ : ConsistentLift lab0 edges (Conn lab0 edges c0) κ) :
     let st := mergeLoop shape lab0 (initSt coord lab0 cells) edges
-    ∃ m : Nat → Int, ∀ a,
+    ∀ a,
       st.pos (st.lab c0) a =
         wsum st.lab (st.lab c0) (fun c => (coord c a : Rat) + 1 / 2 + (κ c a : Rat) * (shape a : Rat)) cells
-          / count st.lab (st.lab c0) cells + (m a : Rat) * (shape a : Rat) := by
+          / count st.lab (st.lab c0) cells + ((st.off (lab0 c0) a - κ c0 a : Int) : Rat) * (shape a : Rat) := by
   intro st
   have inv : AllInv shape lab0 coord cells edges (Conn lab0 edges c0) κ st edges :=
     allInv_final shape lab0 coord cells edges hcells (Conn lab0 edges c0) κ
   have hlift : LiftInv lab0 (Conn lab0 edges c0) κ st :=
     inv.lift (fun c c' pc _ _ hcc => EqvGen.trans _ _ _ pc hcc) hκ
   have hpres : Present st cells (st.lab c0) := ⟨(inv.lab.pos_iff c0).mpr hm0, c0, hc0, rfl⟩
-  refine ⟨fun a => st.off (lab0 c0) a - κ c0 a, fun a => ?_⟩
+  intro a
   have hcnt := count_pos st.lab (st.lab c0) cells hpres.2
   have hpos := inv.sum.pos_eq (st.lab c0) hpres a
   -- every cell of the cluster has the same (off − κ)
@@ -121,6 +121,42 @@ theorem C02_position_nonwinding (edges : List Edge) (hcells : ∀ e ∈ edges, e
   have h1 : st.pos (st.lab c0) a = (st.pos (st.lab c0) a * count st.lab (st.lab c0) cells)
       / count st.lab (st.lab c0) cells := by field_simp
   rw [h1, hpos, add_div, mul_div_assoc, div_self hne, mul_one]
+
+theorem C02_position_nonwinding (edges : List Edge) (hcells : ∀ e ∈ edges, e.l ∈ cells ∧ e.h ∈ cells)
+    (c0 : Nat) (hc0 : c0 ∈ cells) (hm0 : 0 < lab0 c0) (κ : Nat → Nat → Int)
+    (hκ : ConsistentLift lab0 edges (Conn lab0 edges c0) κ) :
+    let st := mergeLoop shape lab0 (initSt coord lab0 cells) edges
+    ∃ m : Nat → Int, ∀ a,
+      st.pos (st.lab c0) a =
+        wsum st.lab (st.lab c0) (fun c => (coord c a : Rat) + 1 / 2 + (κ c a : Rat) * (shape a : Rat)) cells
+          / count st.lab (st.lab c0) cells + (m a : Rat) * (shape a : Rat) := by
+  intro st
+  exact ⟨fun a => st.off (lab0 c0) a - κ c0 a,
+    C02_position_explicit shape lab0 coord cells edges hcells c0 hc0 hm0 κ hκ⟩
+
+/-- **No shift along an axis that has no boundary pairs** (a non-periodic axis): the recorded offsets
+stay zero there, so positions along such an axis are never moved by a period. -/
+theorem off_zero_along (edges : List Edge) (a : Nat) (ha : ∀ e ∈ edges, e.ax ≠ a) :
+    ∀ k, (mergeLoop shape lab0 (initSt coord lab0 cells) edges).off k a = 0 := by
+  have key : ∀ (es : List Edge) (st : St), (∀ e ∈ es, e.ax ≠ a) → (∀ k, st.off k a = 0) →
+      ∀ k, (es.foldl (mergeStep shape lab0) st).off k a = 0 := by
+    intro es
+    induction es with
+    | nil => intro st _ h0; simpa using h0
+    | cons e es ih =>
+      intro st hes h0
+      simp only [List.foldl_cons]
+      apply ih _ (fun e' he' => hes e' (List.mem_cons_of_mem _ he'))
+      intro k
+      by_cases hm : Merging st e
+      · rw [step_off shape lab0 st e hm]
+        have hne : e.ax ≠ a := hes e List.mem_cons_self
+        have hd : delta a e.ax = 0 := by unfold delta; rw [if_neg (Ne.symm hne)]
+        split
+        · simp [shiftOf, h0, hd]
+        · exact h0 k
+      · rw [step_noop shape lab0 st e hm]; exact h0 k
+  exact key edges _ ha (fun _ => rfl)
 
 /-- the input that exposed finding D1 (U-shaped component over the periodic face of axis 1 on a
 5×8 grid: cells (1,0),(3,0),(1..3,7), scipy labels 1,2,2,3,2): the repaired loop returns ONE
